@@ -18,13 +18,16 @@ func (fc *fnCtx) instr(ins ssa.Instruction, st *State) {
 			if v, ok := fc.vals[ins.X]; ok && v.Addr == nil && v.T != "" {
 				fc.locals[id.Name] = v
 				fc.localIsAddr[id.Name] = true
+				st.setLocal(id.Name, v, true)
 			}
 		} else if id, ok := ins.Expr.(*ast.Ident); ok && !ins.IsAddr {
 			delete(fc.localIsAddr, id.Name)
 			if v, ok := fc.vals[ins.X]; ok && v.Addr == nil && len(v.Tup) == 0 {
 				fc.locals[id.Name] = v
+				st.setLocal(id.Name, v, false)
 			} else if c, ok := ins.X.(*ssa.Const); ok {
 				fc.locals[id.Name] = fc.constVal(c)
+				st.setLocal(id.Name, fc.constVal(c), false)
 			}
 		}
 	case *ssa.Alloc:
